@@ -304,6 +304,48 @@ def run(ctx):
                 else:
                     ctx.und("R07.6", key, "argument shape not modelled", fi, c)
 
+    # method-style views / in-place modifications of a caller-owned array
+    VIEWM = {"view", "reshape", "transpose", "swapaxes", "squeeze", "ravel", "byteswap", "newbyteorder"}
+    for modname in (ANY, FLD, MFLD, "nifty.cl.sugar"):
+        mod = m.module(modname)
+        for fi in mod.all_functions:
+            params = set(fi.params()) - {"self", "cls"}
+            if not params:
+                continue
+            cfg = None
+            for c in walk_no_nested(fi.node):
+                if not (isinstance(c, ast.Call) and isinstance(c.func, ast.Attribute) and c.func.attr in VIEWM):
+                    continue
+                root = c.func.value
+                inplace = False
+                while isinstance(root, ast.Call) and isinstance(root.func, ast.Attribute):
+                    if root.func.attr == "byteswap" and any(k.arg == "inplace" and src(k.value) == "True" for k in root.keywords):
+                        inplace = True
+                    root = root.func.value
+                if c.func.attr == "byteswap" and any(k.arg == "inplace" and src(k.value) == "True" for k in c.keywords):
+                    inplace = True
+                if not (isinstance(root, ast.Name) and root.id in params):
+                    continue
+                if cfg is None:
+                    cfg = cfg_of(fi)
+                    rdm = cfg.reaching_defs(fi.params())
+                nodes = [n for n in cfg.nodes if n.kind == "stmt" and n.ast is not None and any(x is c for x in ast.walk(n.ast))]
+                if not nodes:
+                    continue
+                n = nodes[0]
+                defs = rdm[n.id].get(root.id, frozenset())
+                if cfg.entry.id not in defs:
+                    continue  # re-bound to something else before
+                # outermost call of a chain only
+                if any(isinstance(o, ast.Call) and isinstance(o.func, ast.Attribute) and o.func.value is c for o in ast.walk(n.ast)):
+                    continue
+                key = f"{fi.key}::{short(c, 70)}"
+                if inplace:
+                    ctx.bad("R07.6", key, f"the caller's array `{root.id}` is modified in place and a view of it is used further", fi, c)
+                elif isinstance(n.ast, ast.Assign) and _flows_into_storage(cfg, rdm, n, c):
+                    ctx.bad("R07.6", key, f"a view of the caller's array `{root.id}` becomes field storage: the field locks the view, the caller keeps a "
+                                          "writable handle to the same memory", fi, c)
+
     # ------------------------------------------------------------------ R07.3
     ctx.rule("R07.3", "single writer: Field._val/_domain and AnyArray._val/_writeable are assigned only in their "
                       "own __init__ (lock may clear _writeable); nobody re-enables numpy's writeable flag; "
